@@ -58,7 +58,7 @@ def doFd (l : Line) : Option String := do
   | some e => some (errStr e)
   | none =>
     let fa := f.toArray
-    let r := fd den (tbl m p) n c dx (fun i => fa.getD i 0)
+    let r := fdBy Gen.FiniteDiff.dxScale den (tbl m p) n c dx (fun i => fa.getD i 0)
     some s!"ok r={showCList ((List.range n).map r)}"
 
 /-- `mat method= pad= n= dx= c=` → `ok b=<image of 0> m=<columns: image of e_j minus b>` -/
@@ -72,7 +72,7 @@ def doMat (l : Line) : Option String := do
   match check m p n with
   | some e => some (errStr e)
   | none =>
-    let run (f : Nat → CRat) := (List.range n).map (fd den (tbl m p) n c dx f)
+    let run (f : Nat → CRat) := (List.range n).map (fdBy Gen.FiniteDiff.dxScale den (tbl m p) n c dx f)
     let b := run (fun _ => 0)
     let cols := (List.range n).map fun j =>
       List.zipWith (· - ·) (run (fun i => if i = j then 1 else 0)) b
